@@ -1293,10 +1293,10 @@ def judge_rule(case, obs, info, fail):
             zero = all(x == 0 for x in kind[1][0]) and kind[1][1] == 1 and kind[1][2] == 0
             return want_units(kind[1], also_none=zero)
         if exc is not None:
-            return fail('raised', '%s raised %s: %s' % (oname, type(exc).__name__, exc))
+            return fail('unitless-power' if pure else 'raised', '%s raised %s: %s' % (oname, type(exc).__name__, exc))
         bad = units_match_real(r._units_, kind[1], kind[2])
         if bad:
-            return fail('wrong-units', '%s: %s' % (oname, bad))
+            return fail('unitless-power' if pure else 'wrong-units', '%s: %s' % (oname, bad))
         return values_untouched()
     if model in ANGLE_OPS or model in PURE_OPS:
         ok = ra is None or ra[0] == (0, 0, 0) or (model in ANGLE_OPS and ra[0] == (0, 0, 1))
